@@ -326,7 +326,7 @@ def long_literal_shard(arg):
                         if _check_text(src, 6, 3, st, "noise", (src, "f.c")):
                             st.nontrivial += 1
                         st.classes["long_literal.%s" % ("closed" if closed else "open")] += 1
-                    if len(st.failures) > 4:
+                    if len(st.failures) > 1:
                         return st
     return st
 
